@@ -173,6 +173,37 @@ impl Prop for C08 {
             case.set("min_cfg", 0);
             return case;
         }
+        if r.chance(80) {
+            // 'repeat-pair' population: two or three plain macro-repeat keys held at the same time
+            // and released in any order: each macro stops restarting once ITS key is up
+            let n = r.range(2, 3) as usize;
+            let names = ["a", "d", "e"];
+            let marks = ["x", "y", "z"];
+            let delays: Vec<u64> = (0..n).map(|_| *r.pick(&[10u64, 15, 20, 30])).collect();
+            let acts: Vec<String> = (0..n).map(|i| format!("(macro-repeat {} {})", marks[i], delays[i])).collect();
+            let mut case = Case { prop: "C08".into(), seed, ..Default::default() };
+            case.cfg = format!("(defsrc {} b c)\n(deflayer l0 {} 1 2)\n", names[..n].join(" "), acts.join(" "));
+            let mut ops = vec![Op::Gap(2)];
+            let mut order: Vec<usize> = (0..n).collect();
+            r.shuffle(&mut order);
+            for i in &order {
+                ops.push(Op::Press(oscode_of(names[*i])));
+                ops.push(Op::Gap(r.range(5, 60) as u32));
+            }
+            ops.push(Op::Gap(r.range(20, 80) as u32));
+            r.shuffle(&mut order);
+            for i in &order {
+                ops.push(Op::Release(oscode_of(names[*i])));
+                ops.push(Op::Gap(r.range(30, 120) as u32));
+            }
+            ops.push(Op::Gap(400));
+            case.ops = ops;
+            case.set("pop", "repeat-pair");
+            case.set("delays", delays.iter().map(|d| d.to_string()).collect::<Vec<_>>().join(","));
+            case.set("min_ops", 0);
+            case.set("min_cfg", 0);
+            return case;
+        }
         let pop = *r.pick(&["single", "single", "interleaved", "concurrent", "overflow", "cancel-press"]);
         let nm = match pop {
             "single" | "interleaved" | "cancel-press" => 1,
@@ -288,6 +319,55 @@ impl Prop for C08 {
         o.sig = sig;
         o.nontrivial = !outs.is_empty();
         let pop = case.param("pop").unwrap_or("single").to_string();
+        if pop == "repeat-pair" {
+            let delays: Vec<u64> = case.param("delays").unwrap_or("").split(',').filter_map(|x| x.parse().ok()).collect();
+            let names = ["a", "d", "e"];
+            let marks = ["X", "Y", "Z"];
+            let d = st.down_set();
+            if !d.is_empty() {
+                o.set_fail("C08:keys-down-after-macro-end", format!("still down: {:?}: {}", d.keys, outs_short(&outs)), vec![]);
+            }
+            let mut tm = 0u64;
+            let mut rel: Vec<Option<u64>> = vec![None; delays.len()];
+            let mut prs: Vec<Option<u64>> = vec![None; delays.len()];
+            for op in &case.ops {
+                match op {
+                    Op::Gap(n) => tm += *n as u64,
+                    Op::Press(c) => {
+                        if let Some(i) = names.iter().take(delays.len()).position(|n| oscode_of(n) == *c) {
+                            prs[i] = Some(tm);
+                        }
+                    }
+                    Op::Release(c) => {
+                        if let Some(i) = names.iter().take(delays.len()).position(|n| oscode_of(n) == *c) {
+                            rel[i] = Some(tm);
+                        }
+                    }
+                    _ => {}
+                }
+            }
+            for i in 0..delays.len() {
+                let (Some(p0), Some(r0)) = (prs[i], rel[i]) else { continue };
+                let presses: Vec<u64> = outs.iter().filter(|e| e.kind == OutKind::Press && e.key == marks[i]).map(|e| e.t).collect();
+                // (only the most recently pressed repeating macro restarts while several are held:
+                // that is how the engine picks the macro to restart; not judged)
+                let _ = p0;
+                if presses.is_empty() && !o.failed() {
+                    o.set_fail("C08:macro-output-differs-from-its-list", format!("(macro-repeat {} {}) was pressed at {p0} and never typed {}: {}", marks[i].to_lowercase(), delays[i], marks[i], outs_short(&outs)), vec![]);
+                }
+                // no new iteration starts after its key is up (one may be in progress)
+                let limit = r0 + delays[i] + 6;
+                if let Some(late) = presses.iter().find(|t| **t > limit) {
+                    if !o.failed() {
+                        o.set_fail("C08:repeat-restarted-after-release", format!("(macro-repeat {} {}): key released at {r0}, {} typed again at {late}: {}", marks[i].to_lowercase(), delays[i], marks[i], outs_short(&outs)), vec![]);
+                    }
+                }
+            }
+            if want_sample {
+                o.sample = Some(sample_json(case, &outs, json!({"pop": pop})));
+            }
+            return o;
+        }
         if pop == "shared-mod" {
             let m = case.param("mod_out").unwrap_or("LShift").to_string();
             let d = st.down_set();
